@@ -2,6 +2,7 @@ package rt
 
 import (
 	"fmt"
+	"github.com/hashicorp/terraform-plugin-framework/attr"
 	"reflect"
 	"sort"
 	"strings"
@@ -302,10 +303,17 @@ func monC17(x *Ctx) {
 			prior = deepCopyTF(obj).(types.Object)
 		}
 		x.Eval(1)
+		// every fourth call the hooks return nil: the nil is what must be stored (over whatever was there)
+		nilMode := i%4 == 3 || i%8 == 2
+		tfx.NilResults = nilMode
 		out := x.CopyTo(p, &obj)
+		tfx.NilResults = false
 		if out.Panic != nil {
 			x.Violate(panicFP("CopyTo", out)+"/"+x.nilEmbedClass(p), in, "CopyTo panicked", map[string]interface{}{"panic": panicDetail(out)})
 			continue
+		}
+		if nilMode {
+			x.Count("to-calls-with-nil-hook-results", 1)
 		}
 		for _, oc := range occs {
 			// locate struct level and object level
@@ -372,6 +380,8 @@ func monC17(x *Ctx) {
 					why = fmt.Sprintf("current value argument %v, want %v", dumpIface(c.Current), dumpIface(cur))
 				case !reflect.DeepEqual(o.Attrs[a.Attr], c.Returned):
 					why = fmt.Sprintf("stored value %v is not the hook's return value %v", dumpIface(o.Attrs[a.Attr]), dumpIface(c.Returned))
+				case nilMode && !hasKey(o.Attrs, a.Attr):
+					why = "the hook's (nil) return value was not stored: the attribute is absent"
 				default:
 					okCall = true
 				}
@@ -460,4 +470,9 @@ func dumpIface(v interface{}) interface{} {
 		return dumpTF(av)
 	}
 	return fmt.Sprintf("%#v", v)
+}
+
+func hasKey(m map[string]attr.Value, k string) bool {
+	_, ok := m[k]
+	return ok
 }
